@@ -322,7 +322,10 @@ static int walk(const json &plan) {
                 }
                 if (!checkValid && expOut == "ok")
                     ; // a valid call in a rejected-calls scenario: executed to reach the next state only
-                else if (out != expOut && !(rs.maskByHas && out != "out_of_range" && expOut != "out_of_range"))
+                else if ((checkValid ? ((out == "ok") != (expOut == "ok")) : (out != expOut)) &&
+                         !(rs.maskByHas && out != "out_of_range" && expOut != "out_of_range"))
+                    // (which exception a rejected call throws is C07's subject: the other checks only
+                    // distinguish accepted from rejected calls)
                     // (with mask_by_has an ok/invalid_argument difference follows from a
                     // disagreement about which pairs are edges: not this check's subject)
                     why = "outcome: expected " + expOut + ", got " + out;
